@@ -754,6 +754,15 @@ pub fn do_mount(base: &Path, target: &str, kind: &str, src: &str) -> Result<(), 
             let fs = cstr("tmpfs");
             libc::mount(fs.as_ptr(), t.as_ptr(), fs.as_ptr(), 0, std::ptr::null())
         },
+        "tmpfs-selfonly" => unsafe {
+            // a fake /proc that has a "self" entry but no "thread-self"
+            let fs = cstr("tmpfs");
+            let r = libc::mount(fs.as_ptr(), t.as_ptr(), fs.as_ptr(), 0, std::ptr::null());
+            if r == 0 {
+                let _ = std::os::unix::fs::symlink("nowhere", format!("{}/self", target));
+            }
+            r
+        },
         "bind-file" | "bind-procfile" | "bind-procdir" => {
             let srcp = if kind == "bind-file" {
                 let f = base.join("overmount-src-file");
